@@ -121,16 +121,17 @@ type Cluster struct {
 	reqCount int
 	sched    []Sched
 
-	parkOn   bool
-	parkSkip int // CLUSTER SLOTS requests still to be served before parking starts
-	parked   chan struct{}
-	down     map[int]bool // nodes taken down
-	arrivals map[int]int  // command id -> how many times a node processed it (any outcome)
-	connOf   map[net.Conn]int
-	closed  bool
-	conns   map[net.Conn]struct{}
-	wg      sync.WaitGroup
-	nServed int
+	parkOn     bool
+	parkSkip   int // CLUSTER SLOTS requests still to be served before parking starts
+	parked     chan struct{}
+	down       map[int]bool // nodes taken down
+	arrivals   map[int]int  // command id -> how many times a node processed it (any outcome)
+	connOf     map[net.Conn]int
+	parkedConn net.Conn // the connection whose CLUSTER SLOTS request is parked (kept open when its node goes down)
+	closed     bool
+	conns      map[net.Conn]struct{}
+	wg         sync.WaitGroup
+	nServed    int
 }
 
 func NewCluster(n int, keys []string) (*Cluster, error) {
@@ -280,7 +281,7 @@ func (d *Cluster) applyLocked(ev MigEv) bool {
 		d.down[ev.Dst] = true
 		d.lns[ev.Dst].Close()
 		for c, n := range d.connOf {
-			if n == ev.Dst {
+			if n == ev.Dst && c != d.parkedConn {
 				c.Close()
 			}
 		}
@@ -393,10 +394,12 @@ type clConnState struct {
 	decided  bool // outcome of this transaction attempt already logged
 	txnAsk   bool
 	firstErr string
+	conn     net.Conn
 }
 
 // keysOf extracts (keys, id) of a data command. Commands used by the harness:
-//   set/append/lpush/sadd k #id | hset k f #id | smove src dst #id
+//
+//	set/append/lpush/sadd k #id | hset k f #id | smove src dst #id
 func clusterKeysOf(args []string) ([]string, int) {
 	id := -1
 	last := args[len(args)-1]
@@ -481,7 +484,7 @@ func clB2i(b bool) int {
 func (d *Cluster) serve(node int, c net.Conn) {
 	br := bufio.NewReader(c)
 	bw := bufio.NewWriter(c)
-	st := &clConnState{}
+	st := &clConnState{conn: c}
 	abandonTxn := func() {
 		// connection ended inside MULTI: nothing of it executes
 		d.mu.Lock()
@@ -532,9 +535,11 @@ func (d *Cluster) handle(node int, st *clConnState, args []string) string {
 			} else if d.parkOn && d.parked == nil && !d.closed {
 				ch := make(chan struct{})
 				d.parked = ch
+				d.parkedConn = st.conn
 				d.mu.Unlock()
 				<-ch
 				d.mu.Lock()
+				d.parkedConn = nil
 				if d.closed {
 					d.mu.Unlock()
 					return ""
@@ -792,4 +797,25 @@ func (d *Cluster) Snapshot() (trace []string, execs []ClusterExec, nodeLog [][]s
 		nodeLog = append(nodeLog, append([]string(nil), l...))
 	}
 	return
+}
+
+// WaitProgress waits until every id has been processed more often than in
+// `before` (a copy of Arrivals taken before the attempt) and returns the ids
+// that made no progress within the timeout.
+func (d *Cluster) WaitProgress(ids []int, before map[int]int, timeout time.Duration) []int {
+	dl := time.Now().Add(timeout)
+	for {
+		d.mu.Lock()
+		var rest []int
+		for _, id := range ids {
+			if d.arrivals[id] <= before[id] {
+				rest = append(rest, id)
+			}
+		}
+		d.mu.Unlock()
+		if len(rest) == 0 || time.Now().After(dl) {
+			return rest
+		}
+		time.Sleep(50 * time.Microsecond)
+	}
 }
